@@ -28,6 +28,11 @@ enum Op {
     CDrop { c: u16 },
     /// The remote lane reads at most n bytes of what the runtime wrote and answers complete frames.
     RRead { n: usize },
+    /// The remote reads exactly k further whole frames (the runtime is polled while it does so) and
+    /// not a byte of the next one.
+    RReadFrames { k: usize },
+    /// Consumer c writes its whole outbox, the runtime being polled whenever the channel is full.
+    CFlush { c: u16 },
     /// The remote writes at most n bytes of its output.
     RPump { n: usize },
     /// Spontaneous change of the lane.
@@ -70,9 +75,9 @@ fn arb_nbytes() -> impl Strategy<Value = usize> {
 
 fn arb_w(kind: Kind) -> BoxedStrategy<W> {
     match kind {
-        Kind::Value => prop_oneof![6 => Just(W::Val { id: 0 }), 1 => Just(W::Empty)].boxed(),
+        Kind::Value => prop_oneof![6 => Just(W::Val { id: 0, pad: 0 }), 1 => Just(W::Empty)].boxed(),
         Kind::Map => prop_oneof![
-            6 => (0u8..KEYS.len() as u8).prop_map(|k| W::Upd { k, id: 0 }),
+            6 => (0u8..KEYS.len() as u8).prop_map(|k| W::Upd { k, id: 0, pad: 0 }),
             3 => (0u8..KEYS.len() as u8).prop_map(|k| W::Rem { k }),
             1 => Just(W::Clr),
         ]
@@ -130,25 +135,119 @@ fn arb_params(kind: Kind) -> impl Strategy<Value = Params> {
         )
 }
 
+/// Writes of a burst: few keys (so that later writes hit keys that are still queued), more clears.
+fn arb_burst_w(kind: Kind, clear: bool) -> BoxedStrategy<W> {
+    match kind {
+        Kind::Value => prop_oneof![8 => Just(W::Val { id: 0, pad: 0 }), 1 => Just(W::Empty)].boxed(),
+        Kind::Map => prop_oneof![
+            8 => (0u8..6).prop_map(|k| W::Upd { k, id: 0, pad: 0 }),
+            2 => (0u8..6).prop_map(|k| W::Rem { k }),
+            if clear { 1 } else { 0 } => Just(W::Clr),
+        ]
+        .boxed(),
+    }
+}
+
+fn arb_big_w(kind: Kind, min_pad: u16) -> BoxedStrategy<W> {
+    match kind {
+        Kind::Value => (min_pad..9500u16).prop_map(|pad| W::Val { id: 0, pad }).boxed(),
+        Kind::Map => (0u8..6, min_pad..9500u16).prop_map(|(k, pad)| W::Upd { k, id: 0, pad }).boxed(),
+    }
+}
+
+/// A targeted burst by one consumer against a remote that reads nothing:
+/// 1. a frame of more than 8 KiB is written and delivered: the runtime's `FramedWrite` is over its
+///    back-pressure boundary and its flush cannot complete;
+/// 2. several more writes (often `clear`, then another long update, then updates of a few keys) are
+///    delivered: they go through the back-pressure relief (value buffer / map queue);
+/// 3. the remote reads exactly k whole frames, so that exactly the head of the queue (a popped clear, the
+///    long entry) is written and the output blocks again with entries still queued;
+/// 4. more writes on the same few keys arrive; 3-4 may repeat.
+fn arb_burst(kind: Kind) -> impl Strategy<Value = Vec<Op>> {
+    let round = (
+        1usize..4,
+        proptest::collection::vec(arb_burst_w(kind, true), 1..4),
+    );
+    (
+        any::<u16>(),
+        any::<bool>(),
+        arb_big_w(kind, 8300),
+        proptest::collection::vec(arb_burst_w(kind, true), 0..3),
+        prop_oneof![3 => Just(true), 1 => Just(false)],
+        prop_oneof![3 => arb_big_w(kind, 8300).prop_map(Some), 1 => Just(None)],
+        proptest::collection::vec(arb_burst_w(kind, false), 2..6),
+        proptest::collection::vec(round, 1..4),
+    )
+        .prop_map(move |(c, settle_first, head, before, clear, big, after, rounds)| {
+            let mut ops = vec![];
+            if settle_first {
+                ops.push(Op::Settle);
+            }
+            ops.push(Op::Write { c, w: head });
+            ops.push(Op::CFlush { c });
+            for w in before {
+                ops.push(Op::Write { c, w });
+            }
+            if clear && kind == Kind::Map {
+                ops.push(Op::Write { c, w: W::Clr });
+            }
+            if let Some(w) = big {
+                ops.push(Op::Write { c, w });
+            }
+            for w in after {
+                ops.push(Op::Write { c, w });
+            }
+            ops.push(Op::CFlush { c });
+            for (k, ws) in rounds {
+                ops.push(Op::RReadFrames { k });
+                for w in ws {
+                    ops.push(Op::Write { c, w });
+                }
+                ops.push(Op::CFlush { c });
+            }
+            ops
+        })
+}
+
 fn arb_case(kind: Kind, max_ops: usize) -> impl Strategy<Value = Case> {
+    let burst_weight = match kind {
+        Kind::Map => 2,
+        Kind::Value => 1,
+    };
     (
         arb_params(kind),
         prop_oneof![3 => Just(true), 1 => Just(false)],
         proptest::collection::vec(arb_op(kind), 1..max_ops),
+        prop_oneof![
+            4 => Just(None),
+            burst_weight => (any::<u16>(), arb_burst(kind)).prop_map(Some),
+        ],
     )
-        .prop_map(|(mut params, attach_first, mut ops)| {
+        .prop_map(|(mut params, attach_first, mut ops, burst)| {
+            if let Some((at, burst)) = burst {
+                // keep the case within the op budget: the burst replaces the tail of the random part
+                ops.truncate(ops.len().saturating_sub(burst.len() / 2).max(1));
+                let at = pick_index(at, ops.len() + 1);
+                let tail = ops.split_off(at);
+                ops.extend(burst);
+                ops.extend(tail);
+            }
             // unique ids: a body identifies one write of the case
             let mut next = 1u32;
             let mut fresh = |w: &mut W| match w {
-                W::Val { id } | W::Upd { id, .. } => {
+                W::Val { id, .. } | W::Upd { id, .. } => {
                     *id = next;
                     next += 1;
                 }
                 _ => {}
             };
+            let mut big = false;
             for op in ops.iter_mut() {
                 match op {
-                    Op::Write { w, .. } | Op::RChange { w } => fresh(w),
+                    Op::Write { w, .. } | Op::RChange { w } => {
+                        fresh(w);
+                        big |= w.is_big();
+                    }
                     _ => {}
                 }
             }
@@ -157,6 +256,18 @@ fn arb_case(kind: Kind, max_ops: usize) -> impl Strategy<Value = Case> {
             }
             if attach_first {
                 ops.insert(0, Op::Attach { sync: true, keep: true, in_cap: 64, out_cap: 64 });
+            }
+            if big {
+                // 9 KB frames through 1-byte channels would cost thousands of scheduling rounds per frame;
+                // the socket side stays small relative to the frames (it still blocks every write)
+                params.to_remote_cap = params.to_remote_cap.max(128);
+                params.from_remote_cap = params.from_remote_cap.max(512);
+                for op in ops.iter_mut() {
+                    if let Op::Attach { in_cap, out_cap, .. } = op {
+                        *in_cap = (*in_cap).max(256);
+                        *out_cap = (*out_cap).max(256);
+                    }
+                }
             }
             Case { params, ops }
         })
@@ -184,6 +295,26 @@ async fn apply_op(rt: &mut Rt, op: &Op) {
         Op::CDrop { c } if n > 0 => rt.consumers[ci(*c)].drop_now(),
         Op::RRead { n } => {
             rt.remote.read(*n);
+        }
+        Op::RReadFrames { k } => {
+            let target = rt.remote.received.len() + *k;
+            loop {
+                let got = rt.remote.read_frames(target - rt.remote.received.len());
+                let polled = rt.poll(1000);
+                if rt.remote.received.len() >= target || (got == 0 && polled == 0) {
+                    break;
+                }
+            }
+        }
+        Op::CFlush { c } if n > 0 => {
+            let i = ci(*c);
+            loop {
+                let wrote = rt.consumers[i].pump(usize::MAX);
+                let polled = rt.poll(1000);
+                if rt.consumers[i].outbox_len() == 0 || (wrote == 0 && polled == 0) {
+                    break;
+                }
+            }
         }
         Op::RPump { n } => {
             rt.remote.pump(*n);
@@ -982,27 +1113,7 @@ fn check(case: &Case) -> Verdict {
                 }
                 if writers.len() == 1 {
                     let s = &sent[writers[0]];
-                    // embedding: conflicting operations keep their order
-                    let mut used = vec![false; s.len()];
-                    let mut fpos: Vec<usize> = vec![];
-                    let mut embed_ok = true;
-                    for (x, e) in cmds.iter().enumerate() {
-                        let lower = (0..x)
-                            .filter(|y| conflicts(cmds[*y], e))
-                            .map(|y| fpos[y] + 1)
-                            .max()
-                            .unwrap_or(0);
-                        match (lower..s.len()).find(|j| !used[*j] && s[*j] == **e) {
-                            Some(j) => {
-                                used[j] = true;
-                                fpos.push(j);
-                            }
-                            None => {
-                                embed_ok = false;
-                                break;
-                            }
-                        }
-                    }
+                    let embed_ok = embeds(s, &cmds);
                     if !embed_ok {
                         v.fail(
                             "command-reordered:map",
@@ -1082,7 +1193,71 @@ fn check(case: &Case) -> Verdict {
         "events>=3",
     );
     v.class_if(cmds.iter().any(|e| matches!(e, Ev::Val(b) if b.is_empty())), "empty-body-command");
+    v.class_if(case.ops.iter().any(|o| matches!(o, Op::RReadFrames { .. })), "burst");
+    v.class_if(
+        obs.consumers.iter().any(|c| c.sent.iter().any(|s| s.w.is_big() && s.written.is_some())),
+        "frame>8KiB-delivered",
+    );
     if kind == Kind::Map {
+        // Proxies (from the histories; the queue itself is not observable) for the states of the map
+        // back-pressure queue that need a clear to go THROUGH the queue and be written while keyed entries
+        // stay behind: (A) when the lane read a clear, >= 2 later updates of distinct keys by the consumer
+        // that sent the clear were already delivered to the runtime and had not reached the lane;
+        // (B) after such a clear, the consumer delivered another operation on a key that at that moment
+        // had an outstanding update followed by an outstanding update of a different key.
+        let mut recv_time: HashMap<Vec<u8>, u64> = HashMap::new();
+        let mut clear_times: Vec<u64> = vec![];
+        for (t, r) in &obs.received[..obs.snap_received] {
+            match r {
+                Req::Command(Ev::Upd(_, b)) => {
+                    recv_time.entry(b.clone()).or_insert(*t);
+                }
+                Req::Command(Ev::Clr) => clear_times.push(*t),
+                _ => {}
+            }
+        }
+        let mut class_a = false;
+        let mut class_b = false;
+        for t in &clear_times {
+            for c in &obs.consumers {
+                let ops: Vec<(u64, Ev)> = c
+                    .sent
+                    .iter()
+                    .filter_map(|s| s.written.map(|w| (w, s.w.ev())))
+                    .collect();
+                let Some(j) = ops.iter().rposition(|(w, e)| *e == Ev::Clr && *w < *t) else { continue };
+                let outstanding_at = |upto: usize, at: u64| -> Vec<(usize, u8)> {
+                    // latest outstanding update per key among ops (j, upto), in sending order
+                    let mut out: Vec<(usize, u8)> = vec![];
+                    for (i, (w, e)) in ops.iter().enumerate().take(upto).skip(j + 1) {
+                        if let Ev::Upd(k, b) = e {
+                            if *w < at && recv_time.get(b).map_or(true, |rt| *rt > at) {
+                                out.retain(|(_, k2)| k2 != k);
+                                out.push((i, *k));
+                            }
+                        }
+                    }
+                    out
+                };
+                if outstanding_at(ops.len(), *t).len() >= 2 {
+                    class_a = true;
+                }
+                for (i2, (w2, e2)) in ops.iter().enumerate().skip(j + 1) {
+                    if *w2 <= *t {
+                        continue;
+                    }
+                    let Some(k) = e2.key() else { continue };
+                    let out = outstanding_at(i2, *w2);
+                    if let Some(pos) = out.iter().position(|(_, k2)| *k2 == k) {
+                        if pos + 1 < out.len() {
+                            class_b = true;
+                        }
+                    }
+                }
+            }
+        }
+        v.class_if(class_a, "clear-written-with>=2-entries-behind");
+        v.class_if(class_b, "op-on-queued-non-tail-key-after-written-clear");
         let mut spell: BTreeMap<(usize, u8), Vec<u8>> = BTreeMap::new();
         let mut respelled = false;
         for (ci, c) in obs.consumers.iter().enumerate() {
@@ -1101,6 +1276,183 @@ fn check(case: &Case) -> Verdict {
         }
         v.class_if(respelled, "key-respelled");
     }
+    v
+}
+
+/// Is `cmds` a selection of `sent` (content-wise) in which conflicting operations (same key, or either
+/// a clear) keep their order? Greedy earliest match is complete because equal operations conflict.
+fn embeds(sent: &[Ev], cmds: &[&Ev]) -> bool {
+    let mut used = vec![false; sent.len()];
+    let mut fpos: Vec<usize> = vec![];
+    for (x, e) in cmds.iter().enumerate() {
+        let lower = (0..x)
+            .filter(|y| conflicts(cmds[*y], e))
+            .map(|y| fpos[y] + 1)
+            .max()
+            .unwrap_or(0);
+        match (lower..sent.len()).find(|j| !used[*j] && sent[*j] == **e) {
+            Some(j) => {
+                used[j] = true;
+                fpos.push(j);
+            }
+            None => return false,
+        }
+    }
+    true
+}
+
+// ---------------------------------------------------------------------------------------------
+// the map back-pressure queue on its own (small scope, exhaustive)
+
+/// One symbol per step: 0 upd a, 1 upd "a" (the same Recon key), 2 upd b, 3 upd c, 4 rem a, 5 rem b,
+/// 6 clear, 7 pop (what the write task does when a blocked write completes).
+#[derive(Clone, Debug, Serialize, Deserialize)]
+struct QCase {
+    ops: Vec<u8>,
+}
+
+const QSYMS: u64 = 8;
+
+fn enumerate_queue(depth: u32, worker: usize, workers: usize) -> impl Iterator<Item = QCase> {
+    (1..=depth).flat_map(move |d| {
+        let total = QSYMS.pow(d);
+        (0..total)
+            .filter(move |i| (*i as usize) % workers == worker)
+            .map(move |mut i| {
+                let mut ops = Vec::with_capacity(d as usize);
+                for _ in 0..d {
+                    ops.push((i % QSYMS) as u8);
+                    i /= QSYMS;
+                }
+                QCase { ops }
+            })
+    })
+}
+
+fn arb_qcase(max: usize) -> impl Strategy<Value = QCase> {
+    // pops are frequent so that the queue head moves while entries stay behind
+    let sym = prop_oneof![6 => 0u8..4, 2 => 4u8..6, 2 => Just(6u8), 5 => Just(7u8)];
+    proptest::collection::vec(sym, 1..max).prop_map(|ops| QCase { ops })
+}
+
+/// The statement's command clause for one writer, on `MapBackpressure` driven exactly as the write task
+/// drives it (`push_operation` while a write is pending, `prepare_write` when it completes): what comes out
+/// is an order-preserving (per key, across clears) selection of what went in and folds to the same map.
+fn check_queue(case: &QCase) -> Verdict {
+    use bytes::{Bytes, BytesMut};
+    use swimos_agent_protocol::MapOperation;
+    use swimos_runtime::verif_hooks::{BackpressureStrategy, MapBackpressure};
+    let mut v = Verdict::new();
+    let mut q = MapBackpressure::default();
+    let mut sent: Vec<Ev> = vec![];
+    let mut got: Vec<Ev> = vec![];
+    // reference content of the queue (None = clear), to measure the interesting states
+    let mut model: Vec<Option<u8>> = vec![];
+    let mut clear_popped_with_2 = false;
+    let mut after_popped_clear = false;
+    let mut non_tail_after_clear = false;
+    let mut buffer = BytesMut::new();
+    let mut pop = |q: &mut MapBackpressure, got: &mut Vec<Ev>, v: &mut Verdict| {
+        if q.has_data() {
+            q.prepare_write(&mut buffer);
+            let ev = decode_command(Kind::Map, Bytes::copy_from_slice(&buffer));
+            if let Ev::Bad(b) = &ev {
+                v.fail("queue:undecodable", format!("popped {:?}", String::from_utf8_lossy(b)));
+            }
+            got.push(ev);
+            true
+        } else {
+            false
+        }
+    };
+    let spell = |k: u8| -> BytesMut { BytesMut::from(KEYS[k as usize].0.as_bytes()) };
+    for (i, sym) in case.ops.iter().enumerate() {
+        let id = (i + 1).to_string();
+        let op: Option<(MapOperation<BytesMut, BytesMut>, Ev)> = match sym {
+            0 => Some((MapOperation::Update { key: spell(0), value: BytesMut::from(id.as_bytes()) }, Ev::Upd(0, id.clone().into_bytes()))),
+            1 => Some((MapOperation::Update { key: spell(1), value: BytesMut::from(id.as_bytes()) }, Ev::Upd(0, id.clone().into_bytes()))),
+            2 => Some((MapOperation::Update { key: spell(2), value: BytesMut::from(id.as_bytes()) }, Ev::Upd(1, id.clone().into_bytes()))),
+            3 => Some((MapOperation::Update { key: spell(4), value: BytesMut::from(id.as_bytes()) }, Ev::Upd(2, id.clone().into_bytes()))),
+            4 => Some((MapOperation::Remove { key: spell(0) }, Ev::Rem(0))),
+            5 => Some((MapOperation::Remove { key: spell(2) }, Ev::Rem(1))),
+            6 => Some((MapOperation::Clear, Ev::Clr)),
+            _ => None,
+        };
+        match op {
+            Some((raw, ev)) => {
+                if let Some(k) = ev.key() {
+                    match model.iter().position(|e| *e == Some(k)) {
+                        Some(pos) => {
+                            if after_popped_clear && pos + 1 < model.len() {
+                                non_tail_after_clear = true;
+                            }
+                        }
+                        None => model.push(Some(k)),
+                    }
+                } else {
+                    model.clear();
+                    model.push(None);
+                    after_popped_clear = false;
+                }
+                if let Err(e) = q.push_operation(raw) {
+                    v.fail("queue:valid-key-refused", format!("{}", e));
+                }
+                sent.push(ev);
+            }
+            None => {
+                let popped = pop(&mut q, &mut got, &mut v);
+                if popped != !model.is_empty() {
+                    v.fail(
+                        "queue:pop-emptiness",
+                        format!("has_data() = {} but {} entries should be queued; ops {:?}", popped, model.len(), case.ops),
+                    );
+                }
+                if !model.is_empty() {
+                    if model.remove(0).is_none() {
+                        after_popped_clear = !model.is_empty();
+                        if model.len() >= 2 {
+                            clear_popped_with_2 = true;
+                        }
+                    } else if model.is_empty() {
+                        after_popped_clear = false;
+                    }
+                }
+            }
+        }
+    }
+    let mut guard = 0;
+    while pop(&mut q, &mut got, &mut v) {
+        guard += 1;
+        if guard > case.ops.len() + 2 {
+            v.fail("queue:never-empties", format!("more pops than pushes; ops {:?}", case.ops));
+            break;
+        }
+    }
+    let got_ref: Vec<&Ev> = got.iter().collect();
+    let detail = |what: &str| format!("{}: pushed {} popped {} (ops {:?})", what, show_evs(&sent), show_evs(&got), case.ops);
+    if !embeds(&sent, &got_ref) {
+        v.fail("queue:order", detail("the popped operations are not an order-preserving (per key, across clears) selection of the pushed ones"));
+    }
+    let mut want = State::empty(Kind::Map);
+    for e in &sent {
+        want.apply(e);
+    }
+    let mut have = State::empty(Kind::Map);
+    for e in &got {
+        have.apply(e);
+    }
+    if want != have {
+        v.fail(
+            "queue:final-state",
+            detail(&format!("applying the popped operations gives {} but applying the pushed ones gives {}", have.show(), want.show())),
+        );
+    }
+    if got.len() < sent.len() {
+        v.nontrivial();
+    }
+    v.class_if(got.len() < sent.len(), "superseded");
+    v.class_if(clear_popped_with_2, "clear-popped-with>=2-entries-queued");
+    v.class_if(non_tail_after_clear, "op-on-queued-non-tail-key-after-popped-clear");
     v
 }
 
@@ -1153,10 +1505,16 @@ fn main() {
     if let Err(e) = selftest() {
         ctx.inconclusive(format!("key table self test failed: {}", e));
     }
-    let n_value = ctx.pick(150_000, 8_000_000);
-    let n_map = ctx.pick(150_000, 8_000_000);
+    let n_value = ctx.pick(250_000, 8_000_000);
+    let n_map = ctx.pick(250_000, 8_000_000);
     let max_ops = ctx.pick(70, 160);
     ctx.prop("value-session", n_value, move || arb_case(Kind::Value, max_ops), check);
     ctx.prop("map-session", n_map, move || arb_case(Kind::Map, max_ops), check);
+    // the per-key queue behind the map downlink's (and the map uplink's) back-pressure relief, on its own
+    let depth = ctx.pick(6, 8);
+    ctx.enumerate("map-queue-small-scope", move |w, ws| enumerate_queue(depth, w, ws), check_queue);
+    let n_q = ctx.pick(200_000, 10_000_000);
+    let qmax = ctx.pick(30, 80);
+    ctx.prop("map-queue-random", n_q, move || arb_qcase(qmax), check_queue);
     ctx.finish();
 }
